@@ -1124,6 +1124,8 @@ def call_method(it, recv, name, args, kwargs, node, fr):
             return Seq([dist, idx], "tuple")
         u = Unk(base_t, space=qsp)  # one neighbour list per query point
         u.pos_of = recv.tree_space
+        q0_ = args[0] if args else None
+        u.nested_lists = qsp is not None and not getattr(q0_, "single_row", False) and not getattr(q0_, "each_of", None)
         u.tree_query = (recv, args[0] if args else None)
         if _flag(kwargs, "return_distance", False) is True:
             d_ = Unk(call("unpack", base_t, const(1)))
@@ -1486,6 +1488,14 @@ _STR_METHODS = {n for n in dir(str) if not n.startswith("_")} - {"count", "index
 
 def val_method(it, v, name, args, kwargs, node, fr):
     it.record("call", "value." + name, [v] + args, dict(kwargs), node)
+    if getattr(v, "iter_kind", None) in ("groupby", "groupby-column") and getattr(v, "of_frame", None) is not None \
+            and name in ("transform", "cumcount", "cumsum", "cummax", "cummin", "rank", "ngroup", "shift", "diff"):
+        # one value per row of the grouped table, labelled like that table (whatever the function computes per group)
+        f_ = v.of_frame
+        r_ = Val(call("." + name, v.term, *[to_term(a) for a in args]), space=f_.space, series=True)
+        r_.lab = _lib.label_key(f_)
+        r_.per_row_of = f_
+        return r_
     if is_pyconst(v):
         pv = pyval(v)
         if isinstance(pv, str):
